@@ -6,4 +6,4 @@ if [ -f tools/py2lean.py ]; then
   /venv/bin/python tools/py2lean.py --repo /repo --out lean/PGM/Generated || true
 fi
 cd lean
-lake build PGM pgmdriver
+lake build PGM pgmdriver pgmgen
